@@ -40,6 +40,7 @@ type Contract struct {
 	Arith    string // "int" or "bv" ("" = int)
 	Flags    map[string]bool
 	Requires []Clause
+	Assumes  []Clause // preconditions checked at static call sites but not derivable from a refined interface contract (reported as unchecked assumptions)
 	Ensures  []Clause
 	Panics   []Clause
 	Modifies []string // raw items
@@ -50,6 +51,7 @@ type Contract struct {
 	Params   []string // for iface/extern/callback: optional explicit parameter names
 	Refines  []string // interface method contracts this function must satisfy
 	GhostSets []GhostSet // ghost assignments performed by the function (ghost code)
+	GhostAts []GhostAt
 	NoLock   []Clause   // locks that must not be held at any blocking channel operation of the function
 	File     string
 	Line     int
@@ -69,6 +71,35 @@ type SpecFunc struct {
 	Params []QVar
 	Ret    string
 	Body   *Clause // nil = uninterpreted
+	Macro  bool    // expanded inline in the state of the use site (may read the heap)
+}
+
+// Theory: a background theory given as raw SMT-LIB text (sorts, datatypes, defined functions,
+// axioms), with the signatures contracts may use. Emitted once into a query when referenced.
+type Theory struct {
+	Name   string
+	Sorts  map[string]bool
+	Consts map[string]string // name -> sort
+	Funs   map[string]*TheoryFun
+	Smt    []string
+	Axioms []string // names of the quantified assertions (reported as trusted)
+	File   string
+}
+
+type TheoryFun struct {
+	Name   string
+	Params []string // spec type names
+	Ret    string
+}
+
+// GhostAt: a ghost assignment attached to a call site of the function under contract.
+type GhostAt struct {
+	Callee  string
+	Ordinal int
+	Before  bool
+	Name    string
+	Idx     Expr
+	Val     Clause
 }
 
 type Axiom struct {
@@ -92,8 +123,20 @@ type GuardDecl struct {
 	Line   int
 }
 
+// TypeInv: "typeinv <type> <var>: expr" - an invariant of every value of a zap-private type that is
+// reachable through an interface: established where the value is converted to an interface,
+// assumed for the receiver where a method is verified against an interface contract.
+type TypeInv struct {
+	Type string
+	Var  string
+	C    Clause
+}
+
 type Contracts struct {
+	stable   map[string]bool
+	TypeInvs map[string]*TypeInv
 	Guards map[string]*GuardDecl
+	Theories []*Theory
 	ByID   map[string]*Contract
 	Specs  map[string]*SpecFunc
 	Axioms []*Axiom
@@ -106,10 +149,11 @@ var clauseKeywords = map[string]bool{
 	"props": true, "arith": true, "flags": true, "requires": true, "ensures": true, "modifies": true,
 	"loop": true, "track": true, "panics": true, "statement": true, "refines": true, "ghost-set": true, "params": true, "assert": true, "lemma": true,
 	"guarded": true, "onceinit": true, "nolock": true,
+	"theory": true, "sort": true, "const": true, "fun": true, "smt": true, "macro": true, "ghost-at": true, "trusted-axiom": true, "typeinv": true, "assumes": true,
 }
 
 func parseContracts(srcs []contractSource) (*Contracts, error) {
-	cs := &Contracts{Guards: map[string]*GuardDecl{}, ByID: map[string]*Contract{}, Specs: map[string]*SpecFunc{}, Ghosts: map[string]*GhostVar{}}
+	cs := &Contracts{TypeInvs: map[string]*TypeInv{}, Guards: map[string]*GuardDecl{}, ByID: map[string]*Contract{}, Specs: map[string]*SpecFunc{}, Ghosts: map[string]*GhostVar{}}
 	for _, src := range srcs {
 		// join continuation lines
 		type ln struct {
@@ -136,6 +180,7 @@ func parseContracts(srcs []contractSource) (*Contracts, error) {
 			}
 		}
 		var cur *Contract
+		var curTh *Theory
 		for _, l := range lines {
 			kw, rest := l.s, ""
 			if j := strings.IndexAny(l.s, " \t"); j >= 0 {
@@ -153,6 +198,7 @@ func parseContracts(srcs []contractSource) (*Contracts, error) {
 			}
 			switch kw {
 			case "func", "iface", "callback":
+				curTh = nil
 				id := rest
 				cur = &Contract{Kind: kw, ID: id, Flags: map[string]bool{}, Loops: map[int]*LoopSpec{}, File: src.File, Line: l.line}
 				if _, dup := cs.ByID[kw+" "+id]; dup {
@@ -168,8 +214,68 @@ func parseContracts(srcs []contractSource) (*Contracts, error) {
 				}
 				cs.ByID["func "+id] = cur
 				cs.Order = append(cs.Order, "func "+id)
-			case "spec":
-				// spec func name(a T, b U) R [= expr]
+			case "typeinv":
+				j := strings.Index(rest, ":")
+				if j < 0 {
+					return nil, errf("typeinv <type> <var>: expr")
+				}
+				fs := strings.Fields(rest[:j])
+				if len(fs) != 2 {
+					return nil, errf("typeinv <type> <var>: expr")
+				}
+				c, err := mkClause(strings.TrimSpace(rest[j+1:]))
+				if err != nil {
+					return nil, err
+				}
+				if _, dup := cs.TypeInvs[fs[0]]; dup {
+					return nil, errf("duplicate typeinv for %s", fs[0])
+				}
+				cs.TypeInvs[fs[0]] = &TypeInv{Type: fs[0], Var: fs[1], C: c}
+				cur = nil
+			case "theory":
+				curTh = &Theory{Name: rest, Sorts: map[string]bool{}, Consts: map[string]string{}, Funs: map[string]*TheoryFun{}, File: src.File}
+				cs.Theories = append(cs.Theories, curTh)
+				cur = nil
+			case "sort", "const", "fun", "smt", "trusted-axiom":
+				if curTh == nil {
+					return nil, errf("%s outside a theory block", kw)
+				}
+				switch kw {
+				case "sort":
+					for _, f := range strings.Fields(rest) {
+						curTh.Sorts[f] = true
+					}
+				case "const":
+					fs := strings.Fields(rest)
+					if len(fs) != 2 {
+						return nil, errf("const NAME SORT")
+					}
+					curTh.Consts[fs[0]] = fs[1]
+				case "fun":
+					op, cp := strings.Index(rest, "("), strings.LastIndex(rest, ")")
+					if op < 0 || cp < op {
+						return nil, errf("fun name(T, U) R")
+					}
+					tf := &TheoryFun{Name: strings.TrimSpace(rest[:op]), Ret: strings.TrimSpace(rest[cp+1:])}
+					for _, p := range splitTop(rest[op+1 : cp]) {
+						if p = strings.TrimSpace(p); p != "" {
+							tf.Params = append(tf.Params, p)
+						}
+					}
+					curTh.Funs[tf.Name] = tf
+				case "smt":
+					curTh.Smt = append(curTh.Smt, rest)
+				case "trusted-axiom":
+					// trusted-axiom name: (assert ...)
+					j := strings.Index(rest, ":")
+					if j < 0 {
+						return nil, errf("trusted-axiom name: (assert ...)")
+					}
+					curTh.Axioms = append(curTh.Axioms, strings.TrimSpace(rest[:j]))
+					curTh.Smt = append(curTh.Smt, strings.TrimSpace(rest[j+1:]))
+				}
+			case "spec", "macro":
+				// spec func name(a T, b U) R [= expr]     |    macro name(a T) R = expr
 				r := strings.TrimSpace(strings.TrimPrefix(rest, "func"))
 				op := strings.Index(r, "(")
 				cp := -1
@@ -188,7 +294,7 @@ func parseContracts(srcs []contractSource) (*Contracts, error) {
 				if op < 0 || cp < op {
 					return nil, errf("bad spec func")
 				}
-				sf := &SpecFunc{Name: strings.TrimSpace(r[:op])}
+				sf := &SpecFunc{Name: strings.TrimSpace(r[:op]), Macro: kw == "macro"}
 				for _, p := range splitTop(r[op+1:cp]) {
 					p = strings.TrimSpace(p)
 					if p == "" {
@@ -210,6 +316,12 @@ func parseContracts(srcs []contractSource) (*Contracts, error) {
 					sf.Body = &c
 				} else {
 					sf.Ret = tail
+				}
+				if sf.Macro && sf.Body == nil {
+					return nil, errf("macro %s needs a body", sf.Name)
+				}
+				if _, dup := cs.Specs[sf.Name]; dup {
+					return nil, errf("duplicate spec func / macro %s", sf.Name)
 				}
 				cs.Specs[sf.Name] = sf
 				cur = nil
@@ -294,6 +406,32 @@ func parseContracts(srcs []contractSource) (*Contracts, error) {
 						return nil, err
 					}
 					cur.GhostSets = append(cur.GhostSets, GhostSet{Name: strings.TrimSpace(rest[:lb]), Idx: ie, Val: c})
+				case "ghost-at":
+					// ghost-at call <n> of <callee> before|after name[idx] = expr
+					fs := strings.Fields(rest)
+					if len(fs) < 7 || fs[0] != "call" || fs[2] != "of" || (fs[4] != "before" && fs[4] != "after") {
+						return nil, errf("ghost-at call <n> of <callee> before|after name[idx] = expr")
+					}
+					n, err := strconv.Atoi(fs[1])
+					if err != nil {
+						return nil, errf("%v", err)
+					}
+					body := strings.TrimSpace(rest[strings.Index(rest, " "+fs[4]+" ")+len(fs[4])+2:])
+					eq := strings.Index(body, "=")
+					lb := strings.Index(body, "[")
+					rb := strings.Index(body, "]")
+					if eq < 0 || lb < 0 || rb < lb || rb > eq {
+						return nil, errf("ghost-at ...: name[idx] = expr")
+					}
+					ie, err := parseExpr(body[lb+1 : rb])
+					if err != nil {
+						return nil, errf("%v", err)
+					}
+					c, err := mkClause(strings.TrimSpace(body[eq+1:]))
+					if err != nil {
+						return nil, err
+					}
+					cur.GhostAts = append(cur.GhostAts, GhostAt{Callee: fs[3], Ordinal: n, Before: fs[4] == "before", Name: strings.TrimSpace(body[:lb]), Idx: ie, Val: c})
 				case "nolock":
 					c, err := mkClause(rest)
 					if err != nil {
@@ -316,6 +454,12 @@ func parseContracts(srcs []contractSource) (*Contracts, error) {
 						return nil, err
 					}
 					cur.Requires = append(cur.Requires, c)
+				case "assumes":
+					c, err := mkClause(rest)
+					if err != nil {
+						return nil, err
+					}
+					cur.Assumes = append(cur.Assumes, c)
 				case "ensures":
 					c, err := mkClause(rest)
 					if err != nil {
